@@ -31,6 +31,7 @@ Go `int` arithmetic that can go negative is rewritten over `Nat` without truncat
 `start <= latestPossibleStart` ⇔ `start + minLen ≤ n`; `pos < Runtextend-1` ⇔ `pos + 1 < n`.
 -/
 import RegexVerif.Model.Scan
+import RegexVerif.Model.BoyerMoore
 
 namespace RegexVerif.Finders
 
@@ -186,14 +187,26 @@ def finderAnchors (lower : Nat → Nat) (a : Anchors) (bm : Option Bm) (rtl : Bo
 
 /-! ### path 2: `BmPrefix.Scan` -/
 
-/-- `BmPrefix.Scan(text, pos, 0, len(text))` and the `-1` handling: left-to-right the first occurrence
-    starting at or after `pos`; right-to-left the last occurrence ENDING at or before `pos`, reported
-    by its end — in both directions the first position in scan order at which `IsMatch` would hold.
-    (The skip tables are not modelled; this is the function they implement.) -/
-def finderBmScan (lower : Nat → Nat) (b : Bm) (rtl : Bool) (text : List Nat) (pos : Nat) : Bool × Nat :=
+/-- what `BmPrefix.Scan(text, pos, 0, len(text))` is meant to compute, with the `-1` handling: left-to-right
+    the first occurrence starting at or after `pos`; right-to-left the last occurrence ENDING at or before
+    `pos`, reported by its end — in both directions the first position in scan order at which `IsMatch`
+    would hold.  (`Props.C03.finder_bmScan_eq_spec`: the real scan below computes exactly this.) -/
+def finderBmScanSpec (lower : Nat → Nat) (b : Bm) (rtl : Bool) (text : List Nat) (pos : Nat) : Bool × Nat :=
   let n := text.length
   if rtl then rtlResult (findDown (bmIsMatch lower b true text) pos)
   else ltrResult n (findUp (bmIsMatch lower b false text) (n + 1 - pos) pos)
+
+/-- `r.Runtextpos = r.code.BmPrefix.Scan(r.Runtext, r.Runtextpos, 0, r.Runtextend)` and the `-1` handling
+    (runner.go:1420-1430), with the Boyer-Moore machine of Model/BoyerMoore.lean: tables built as
+    `newBmPrefix` builds them from the (already lower-cased) pattern, `Scan` with its skip loop.  A pattern
+    for which `newBmPrefix` returns nil has no `Code.BmPrefix`; the model answers "no candidate" without
+    moving. -/
+def finderBmScan (lower : Nat → Nat) (b : Bm) (rtl : Bool) (text : List Nat) (pos : Nat) : Bool × Nat :=
+  match BoyerMoore.build b.pat b.ci rtl with
+  | none => (false, pos)
+  | some t =>
+    if rtl then rtlResult (BoyerMoore.scan lower t text pos 0 text.length)
+    else ltrResult text.length (BoyerMoore.scan lower t text pos 0 text.length)
 
 /-! ### path 4: `Code.FcPrefix` -/
 
